@@ -161,6 +161,14 @@ def _check_open(ctx, sr, D, n, nc, fs, L):
     if tail is ctx.CRASH:
         return False
     ctx.check(tail.shape == (1, nc) and np.array_equal(tail[0], A[n - 1]), "C11.tail_slice", lambda: f"slice past the end not clipped {tag}")
+    # walking backwards from beyond the end (compressed files take their own branch for negative steps)
+    for sl in (slice(None, None, -1), slice(n + 3, max(n - 5, 0), -2)):
+        back = ctx.call("C11.read_backwards", lambda: sr[sl, :])
+        if back is ctx.CRASH:
+            return False
+        if not ctx.check(np.shape(back) == A[sl].shape and np.array_equal(back, A[sl]), "C11.backwards_slice",
+                         lambda: f"sr[{sl}, :] differs from the same slice of the file's prefix {tag}"):
+            return False
     ctx.check(sr.rl == n / fs, "C11.duration", lambda: f"rl={sr.rl} != ns/fs={n / fs} {tag}")
     # the metadata duration is only asserted for the offline reader, whose sample count derives from it; the online
     # reader reports its duration through rl/ns computed from the file size and leaves the (stale) field alone
